@@ -15,7 +15,7 @@ reachable state).  For pattern runs the statement is `…_partial`: it needs `Ru
 (no pending negation, no deferred Kleene predicate) — see `kleene_deferred_counterexample`.
 -/
 namespace Varpulis.Props.C19
-open Varpulis.Ckpt
+open Varpulis.Ckpt Varpulis.Ckpt.Witness
 
 /-! ## windows: all ten operators, every continuation -/
 
@@ -109,8 +109,6 @@ theorem engine_obs_equiv {ι ο} (step : EngineSt → ι → EngineSt × ο)
 
 /-! ## the losses: repaired (witnesses of the old behaviour) and not repaired (counterexample) -/
 
-private def ev (id : Int) : Event := { etype := "T", ts := id * 1000000000, data := [("id", .int id)] }
-
 /-- repaired by `fix: sliding count window lost its slide counter`: window(3, sliding: 2) holding
 two events with one of them counted since the last emission; the old `restore` reset the counter,
 so the third event fills the window but is not emitted -/
@@ -181,13 +179,6 @@ theorem pending_negation_state_loss :
 example : ∃ w : WinSt, w = .pSlidingCount [("a", { buf := [{ etype := "T", ts := 1234567, data := [("x", .float .nan)] }], since := 1 })] ∧
     (decWC (wire (encWC w.ckpt))).map (WinSt.restore w.fresh) = some w :=
   ⟨_, rfl, window_restore _⟩
-
-private def bEv : Event := { etype := "B", ts := 5, data := [] }
-
-private def midRun : Run :=
-  { currentState := 2, stack := [(bEv, some "b")], captured := [("b", bEv)], startedAt := none, deadline := none,
-    partitionKey := none, invalidated := false, pendingNegs := [], andState := none,
-    kleene := some { events := [bEv], aliases := [some "b"], deferred := none } }
 
 /-- the premise of `sase_restore_partial` holds of a run in the middle of `A -> all B -> C` -/
 example : ({ SaseSt.empty with runs := [midRun] } : SaseSt).Restorable = true := by
